@@ -76,6 +76,8 @@ TextLines ==
    B("    at zz.Unknown.f(X.java:1)"),         \* unmapped frame
    <<9>> \o B("at b.c.p(Native Method)"),      \* tab indented; "Native Method" has no ':' -> not a frame
    <<9>> \o B("at b.c.p(Unknown Source:7)"),   \* tab indented mapped frame
+   <<9>> \o B("at zz.Unknown.f(X.java:1)"),    \* the unmapped frame again, spelled differently (tab): lines that
+   B("  at a.m(SourceFile:9)"),                \* parse to EQUAL frames but differ as text are each passed through as given
    B("    ... 3 more"),
    <<>>,                                       \* blank line
    B("message says at a.m(SourceFile:2) here"),\* frame look-alike inside free text
@@ -90,9 +92,13 @@ TyFrames == {F(B("a"), B("m"), D(2), B("SourceFile")),     \* -> 1
              F(B("a"), B("o"), D(5), B("SourceFile")),     \* -> 2 identical frames
              F(B("zz.U"), B("f"), D(1), B("X.java")),      \* unknown class
              F(B("b.c"), B("p"), D(0), B("Y"))}            \* no range entry, class-level file
+\* runs of identical frames (deep recursion): every frame of a run is remapped on its own
 TyFrameSeqs == {<<>>} \cup {<<f>> : f \in TyFrames} \cup {<<f, g>> : f, g \in TyFrames}
+               \cup {<<f, f, f>> : f \in TyFrames} \cup {<<f, f, f, f>> : f \in TyFrames}
 TyLevel1 == {Lv(e, fs) : e \in {<<>>} \cup {<<t>> : t \in TyThrowables}, fs \in TyFrameSeqs}
-TyLevelN == {Lv(<<t>>, fs) : t \in TyThrowables, fs \in {<<>>, <<F(B("a"), B("n"), D(4), B("SourceFile"))>>, <<F(B("zz.U"), B("f"), D(1), B("X.java"))>>}}
+TyLevelN == {Lv(<<t>>, fs) : t \in TyThrowables, fs \in {<<>>, <<F(B("a"), B("n"), D(4), B("SourceFile"))>>, <<F(B("zz.U"), B("f"), D(1), B("X.java"))>>,
+                                                   <<F(B("a"), B("m"), D(2), B("SourceFile")), F(B("a"), B("m"), D(2), B("SourceFile")),
+                                                     F(B("a"), B("m"), D(2), B("SourceFile"))>>}}
 
 \* ---- the model -----------------------------------------------------------------------------------------
 VARIABLES x, n
